@@ -48,7 +48,11 @@ Faults(m, d, ign, agg) ==
   \cup (IF m.st = "fitted" /\ m.fam \in GatedFams /\ m.tz # d.tz THEN {"timezone"} ELSE {})
   \cup (IF m.fam = "billing" /\ agg \notin AggOk THEN {"aggregation"} ELSE {})
 \* the statement fixes the exception class only for the gate; the other faults must merely raise
+\* the CalTRACK wrapper has no type check of its own (and is not in C04's statement): whether it raises on a data object of
+\* another family or happens to get through is not demanded either way
+Indifferent(m, d) == m.fam \notin GatedFams /\ d.fam # m.fam
 PredictOutcomeOk(m, d, ign, agg, out) ==
+  Indifferent(m, d) \/
   LET F == Faults(m, d, ign, agg) IN
   /\ (F = {} => out = "ok")
   /\ (F # {} => out # "ok")
